@@ -52,6 +52,7 @@ type Checked struct {
 	registeredAt map[int]int
 	curClosure   *Closure
 	rejKeys      []Key
+	R3           bool // a decorator-introduced key (decorated, never provided) was live at some Invoke
 	groupSeen    map[groupReq]int
 	typeKeys     map[int]map[Key]bool
 	touchAfter   int
@@ -110,6 +111,19 @@ func (c *Checked) Step(i int) {
 			c.touchAfter++
 			if c.touchAfter >= 2 {
 				c.probe("reuse_after_reject")
+			}
+		}
+	}
+	if op.Kind == OpInvoke && c.modelOK() && !c.R3 {
+		for _, sc := range c.M.S {
+			for _, d := range sc.Decs {
+				for _, r := range d.LR {
+					for _, k := range r.Keys {
+						if len(c.M.AllProv(d.Scope, k)) == 0 && !k.IsGroup() {
+							c.R3 = true
+						}
+					}
+				}
 			}
 		}
 	}
